@@ -592,6 +592,8 @@ pub struct World {
     pub max_freq_ppm: f64,
     pub step_threshold_units: i128,
     pub last_call: Option<(usize, usize, &'static str, CallSummary)>,
+    /// name of the host call in progress (read after a caught panic)
+    pub current_call: &'static str,
     clock_log_seen: Vec<usize>,
     next_tag: Cell<u32>,
     /// per-port last state, to detect transitions (node, port) -> state
@@ -630,6 +632,7 @@ impl World {
             max_freq_ppm: 400.0,
             step_threshold_units: (MS) as i128,
             last_call: None,
+            current_call: "",
             clock_log_seen: Vec::new(),
             next_tag: Cell::new(1),
             transitions: 0,
@@ -925,6 +928,7 @@ impl World {
     /// way the daemon's `handle_actions` does.
     pub fn host_call(&mut self, ni: usize, pi: usize, call: HostCall, ch: &mut Chooser) -> CallSummary {
         let name = call.name();
+        self.current_call = name;
         let before: Vec<PState> = if self.monitors { self.nodes[ni].states() } else { Vec::new() };
         let actions = {
             let hp = &mut self.nodes[ni].ports[pi];
@@ -1189,6 +1193,7 @@ impl World {
     /// Stop-the-world BMCA of one node, as `run()` in the daemon does.
     pub fn run_bmca(&mut self, ni: usize, ch: &mut Chooser) {
         let before: Vec<PState> = self.nodes[ni].states();
+        self.current_call = "PtpInstance::bmca";
         let node = &mut self.nodes[ni];
         node.bmca_count += 1;
         let mut in_bmca: Vec<Box<SPort<InBmca>>> = Vec::new();
